@@ -78,7 +78,8 @@ def run_real(S, cfg_kwargs, handlers, workaround_f19=True, path=None):
     def go(p):
         cfg = base_config(S, p, **cfg_kwargs)
         try:
-            return run_func(config=cfg, **handlers), None
+            with open(os.devnull, "w") as dn, contextlib.redirect_stderr(dn):     # rqalpha logs expected user errors to stderr
+                return run_func(config=cfg, **handlers), None
         except BaseException as ex:      # run_func re-raises strategy errors
             if isinstance(ex, KeyboardInterrupt):
                 raise
